@@ -28,8 +28,9 @@ def consts():
     return {m.group(1): int(m.group(2)) for m in re.finditer(r"Definition (\w+) : Z := \((-?\d+)\)%Z\.", txt)}
 
 
-def silence_probe(noise, stage, login):
-    """device goes silent after `stage`; returns (seconds until finish_connection ended, error class | 'ok' | 'pending')"""
+def silence_probe(noise, stage, login, offset=0.0):
+    """device goes silent after `stage`; returns (seconds until finish_connection ended, error class | 'ok' | 'pending').
+    offset: the loop clock shows a fraction of a second when the phase begins (deadlines are relative to that instant)."""
     async def go(loop):
         from aioesphomeapi import api_pb2 as pb
         from aioesphomeapi.connection import APIConnection, ConnectionParams
@@ -41,6 +42,8 @@ def silence_probe(noise, stage, login):
                                   zeroconf_manager=ZeroconfManager(), noise_psk=noisesim.b64(psk) if noise else None, expected_name=None)
         conn = APIConnection(params, lambda e: None, False, None)
         with net.patched():
+            if offset:
+                await simnet.advance(loop, by=offset)
             await conn.start_connection()
             t0 = loop.time()
             task = asyncio.ensure_future(conn.finish_connection(login=login))
@@ -61,11 +64,12 @@ def silence_probe(noise, stage, login):
             elif not noise and stage == "hello-response":
                 tr.feed(simnet.plain_msg(pb.HelloResponse(api_version_major=1, api_version_minor=10, name="dev")))
                 await simnet.drain(loop)
-            # let time pass one second at a time, for at most ten minutes
-            for _ in range(600):
+            # let time pass one second (a quarter, when the clock is off the whole seconds) at a time, for at most ten minutes
+            step = 0.25 if offset else 1.0
+            for _ in range(int(600 / step)):
                 if task.done():
                     break
-                await simnet.advance(loop, by=1.0)
+                await simnet.advance(loop, by=step)
             elapsed = loop.time() - t0
             if not task.done():
                 task.cancel()
@@ -105,6 +109,19 @@ def run(rep, tier, seed):
                     rep.violation("C09/cancel-ignored", f"{where}; the caller cancels start_connection() after {cancel_at} s: it ended only after {elapsed / 1024:.1f} s ({out})", replay)
                 elif out not in ("C",) and not out.startswith("L."):
                     rep.violation("C09/raw-error", f"{where}; cancelled by the caller: ended with {out}", replay)
+    for how in ("cancel", "force"):
+        first, second_now, second_later = concurrent_resolve_probe(how)
+        replay = {"kind": "concurrent-resolve", "how": how}
+        rep.case(("concurrent-resolve", how), True, sample={"probe": replay, "first": first, "second_then": second_now, "second_after_answer": second_later})
+        rep.bump("probe:concurrent-resolve")
+        where = f"two connections to the same address with both lookups outstanding; the first one's start_connection() ended by {how}"
+        if second_now != "pending":
+            rep.violation("C09/foreign-cause", f"{where}: the second one's start_connection() ended too, with {second_now}, although nobody cancelled it and its own "
+                          f"lookup had neither answered nor timed out", replay)
+        elif second_later != "ok":
+            rep.violation("C09/foreign-cause", f"{where}: after its own lookup answered, the second one's start_connection() is {second_later}", replay)
+        elif first not in ("C",) and not first.startswith("L."):
+            rep.violation("C09/raw-error", f"{where}: the first one ended with {first}", replay)
     for timeout, dtimeout in ((3.0, 1.0), (1.0, 3.0), (2.0, 2.0), (30.0, 20.0)):
         for answer in (False, True):
             elapsed, out = ble_connect_silence_probe(timeout, dtimeout, answer)
@@ -140,13 +157,14 @@ def run(rep, tier, seed):
             for login in (False, True):
                 if stage == "hello-response" and not login:
                     continue          # the session is established: nothing is awaited
-                elapsed, out = silence_probe(noise, stage, login)
+                offset = [0.0, 0.25, 0.5 + 1 / 1024][(STAGES.index(stage) + int(noise) + int(login)) % 3]
+                elapsed, out = silence_probe(noise, stage, login, offset)
                 # the model's deadline for this stage
                 if noise and stage in ("tcp", "hello-frame"):
                     want = c["HANDSHAKE_TIMEOUT"]
                 else:
                     want = c["CONNECT_REQUEST_TIMEOUT"]
-                replay = {"kind": "silence-probe", "noise": noise, "stage": stage, "login": login}
+                replay = {"kind": "silence-probe", "noise": noise, "stage": stage, "login": login, "clock_offset": offset}
                 rep.case(("silence", noise, stage, login), nontrivial=True, sample={"probe": replay, "elapsed_units": elapsed, "outcome": out})
                 rep.bump("probe:silence")
                 where = f"{'noise' if noise else 'plaintext'} device silent after {stage} (login={login})"
@@ -156,6 +174,58 @@ def run(rep, tier, seed):
                     rep.violation("C09/raw-error", f"{where}: finish_connection() ended with {out}", replay)
                 elif elapsed != want:
                     rep.violation("C09/bound", f"{where}: finish_connection() failed after {elapsed} units (1/1024 s), the armed deadline is {want}", replay)
+
+
+def concurrent_resolve_probe(how):
+    """Two connections to the same address whose lookups are both outstanding; the first one is cancelled by its caller / times
+    out / is force-closed.  The second is not the first one's business: it keeps waiting for its own lookup and, once that
+    answers, goes on.  Returns (outcome of the first, state of the second right after, outcome of the second after its lookup answered)."""
+    async def go(loop):
+        from aioesphomeapi.connection import APIConnection, ConnectionParams
+        from aioesphomeapi.zeroconf import ZeroconfManager
+        net = simnet.Net(loop)
+        net.resolve_script = ["hang", "hang"]
+
+        def mk():
+            params = ConnectionParams(addresses=["dev.local"], port=6053, password=None, client_info="v", keepalive=20.0,
+                                      zeroconf_manager=ZeroconfManager(), noise_psk=None, expected_name=None)
+            return APIConnection(params, lambda e: None, False, None)
+        a, b = mk(), mk()
+
+        def outcome(t):
+            if not t.done():
+                return "pending"
+            if t.cancelled():
+                return "C"
+            return "ok" if t.exception() is None else conntrace.exc_name(t.exception())
+        with net.patched():
+            ta = asyncio.ensure_future(a.start_connection())
+            await simnet.drain(loop)
+            tb = asyncio.ensure_future(b.start_connection())
+            await simnet.drain(loop)
+            if how == "cancel":
+                ta.cancel()
+            elif how == "force":
+                a.force_disconnect()
+            else:
+                await simnet.advance(loop, by=29.0)     # the first one's lookup deadline passes one second before the second one's
+                await simnet.advance(loop, by=1.5)
+            await simnet.drain(loop)
+            first, second_now = outcome(ta), outcome(tb)
+            for kind, fut in net.hangs:
+                if kind == "resolve" and not fut.done():
+                    fut.set_result(None)
+            await simnet.drain(loop)
+            second_later = outcome(tb)
+            for c in (a, b):
+                c.force_disconnect()
+            await simnet.drain(loop)
+            for t in (ta, tb):
+                if not t.done():
+                    t.cancel()
+            await simnet.drain(loop)
+        return first, second_now, second_later
+    return simnet.run(go)
 
 
 def resolver_hang_probe(host, cancel_at):
@@ -336,8 +406,12 @@ def replay(path):
         common.setup_impl_path()
         print(resolver_hang_probe(d["host"], d["cancel_at"]))
         return 0
+    if d.get("kind") == "concurrent-resolve":
+        common.setup_impl_path()
+        print(concurrent_resolve_probe(d["how"]))
+        return 0
     if d.get("kind") == "silence-probe":
         common.setup_impl_path()
-        print(silence_probe(d["noise"], d["stage"], d["login"]))
+        print(silence_probe(d["noise"], d["stage"], d["login"], d.get("clock_offset", 0.0)))
         return 0
     return connfamily.replay(path, "C09")
